@@ -174,71 +174,6 @@ func ruleLEADINGDIGIT(c *Ctx) {
 	}
 }
 
-// FIELDCOV(taken-names): mid-rule actions are extracted into nonterminals named <nt>$<k>; the
-// extractor picks the first k whose name is not taken. Its takenName set must be seeded with the
-// names of all terminals, template parameters and nonterminals of the model - syntax.Expand
-// itself creates helpers called <nt>$<k>, so without the seed two distinct symbols get the same
-// name and identifier and no error is reported (this is the audited REGISTER exception).
-func ruleTAKENNAMES(c *Ctx) {
-	const rule = "FIELDCOV(taken-names)"
-	f := c.SSAFunc("compiler", "newCommandExtractor")
-	if f == nil {
-		c.Lost(rule, "compiler.newCommandExtractor", "function not found")
-		return
-	}
-	// the map stored into takenName
-	var taken ssa.Value
-	for _, b := range f.Blocks {
-		for _, ins := range b.Instrs {
-			if st, ok := ins.(*ssa.Store); ok {
-				if fa, ok := st.Addr.(*ssa.FieldAddr); ok && fieldName(fa.X.Type(), fa.Field) == "takenName" {
-					taken = st.Val
-				}
-			}
-		}
-	}
-	if taken == nil {
-		c.Lost(rule, "compiler.newCommandExtractor:takenName", "no store to takenName")
-		return
-	}
-	loops := naturalLoops(f)
-	for _, src := range []string{"Terminals", "Params", "Nonterms"} {
-		key := "compiler.newCommandExtractor:" + src
-		found := token.NoPos
-		for _, b := range f.Blocks {
-			for _, ins := range b.Instrs {
-				mu, ok := ins.(*ssa.MapUpdate)
-				if !ok || mu.Map != taken {
-					continue
-				}
-				k := vpath(mu.Key)
-				// range over a slice of structs copies the element into a local first
-				if u, ok := mu.Key.(*ssa.UnOp); ok {
-					if fa, ok := u.X.(*ssa.FieldAddr); ok {
-						if al, ok := fa.X.(*ssa.Alloc); ok && al.Referrers() != nil {
-							for _, r := range *al.Referrers() {
-								if st, ok := r.(*ssa.Store); ok && st.Addr == ssa.Value(al) {
-									k = vpath(st.Val) + "." + fieldName(fa.X.Type(), fa.Field)
-								}
-							}
-						}
-					}
-				}
-				if strings.Contains(k, "."+src+"[") && strings.HasSuffix(k, ".Name") && innermostLoop(loops, b) != nil {
-					if cst, ok := mu.Value.(*ssa.Const); ok && cst.Value != nil && cst.Value.ExactString() == "true" {
-						found = mu.Pos()
-					}
-				}
-			}
-		}
-		if found != token.NoPos {
-			c.Ok(rule, key, found, "the names of m.%s are entered in takenName", src)
-		} else {
-			c.Bad(rule, key, f.Pos(), "takenName is not seeded with the names of m.%s: an extracted mid-rule nonterminal can receive the name (and identifier) of an existing symbol without any error", src)
-		}
-	}
-}
-
 // registerMidRule: extracted mid-rule nonterminals do not go through resolver.ids; the
 // extractor picks the first candidate name <nt>$<k> that is free. "Free" has to include the
 // identifier: the candidate's identifier (ident.Produce(name, CamelCase), e.g. X_1 for X$1) is
